@@ -53,7 +53,7 @@ PMGet(s) == LET S == {k \in 1..Len(T.pm) : T.pm[k].seq = s}
             IN IF S = {} THEN {} ELSE ToSet(T.pm[CHOOSE k \in S : TRUE].members)
 InputOK ==
    LET SH == ToSet(T.sh)  PMAP == ToSet(T.pmap)  nr == Len(T.rows)
-   IN /\ T.has_decoys = T.fasta_decoys /\ NP >= 1
+   IN /\ NP >= 1       \* (T.has_decoys, the reader's own opinion, is NOT part of the binding: the clauses judge the result against the FASTA as written)
       /\ \A p \in 1..NP : /\ TM(p) # {} /\ DM(p) = {T.prefix \o m : m \in TM(p)}
                           /\ \A m \in TM(p) : <<m, T.prefix \o m>> \in PMAP
                           /\ \A r \in 1..NP : r # p => TM(p) \cap TM(r) = {}
